@@ -27,6 +27,15 @@
 //   n3           reverse(A) { reverse(B) { reverse(C) } }     -> N3 x=y{z,z}+y{z,z}|... C <A> <B> <C>
 //   s<p><q><k><w> auto ra = <p>(A); auto rb = <q>(B); then iterate ra, rb in the order k (1: ra first, 2: rb first); the loop run
 //                first writes through its elements when w = w          -> S2 <visits of ra> <visits of rb> C <A afterwards> <B afterwards>
+// case:  ow <scenario> <adaptor en|rv> <kind> <elems1> <elems2>   — an OWNING adaptor (adaptor(temporary container), kept in a
+//   variable) is relocated.  kind vec | list | fv | arr | il (enumerate({..}) / reverse({..}))
+//   cp   b = a (copy); iterate b, then a                 cpd  copy of a heap-held adaptor, the source destroyed, iterate the copy
+//   mv   b = std::move(a); iterate b                     mvd  moved from a heap-held adaptor, the source destroyed
+//   asg  b = a; a = adaptor(elems2); iterate b, a        masg b = adaptor(elems2); b = std::move(*heap source); source destroyed
+//   ret  returned by value through a non-elided path (two candidates), both results iterated
+//   vec  pushed into a std::vector of adaptors that reallocates; elements 0 and 1 iterated
+//   opt  std::optional moved into another optional, the first reset
+//                                                        -> OW <visits 1> <visits 2 | ->   (each adaptor must show its OWN elements)
 // The temporaries of mode r are created inside the range-for statement itself, so that a dangling adaptor is an
 // AddressSanitizer report (observation CRASH(...)).
 #include "common.hpp"
@@ -40,6 +49,8 @@
 #include <initializer_list>
 #include <list>
 #include <map>
+#include <memory>
+#include <optional>
 #include <vector>
 
 namespace nl = nitro::lang;
@@ -413,6 +424,85 @@ template <class H> std::string run_multi_mode(const std::string& sc, char mode, 
     return "BADCASE";
 }
 
+// ---- owning adaptors that are copied / moved / assigned / stored ----
+template <bool EN, class Ad> std::string ow_vis(Ad& a, std::size_t n)
+{
+    if constexpr (EN) return visits_en(a, n);
+    else return visits_rv(a, n);
+}
+template <bool EN, class Mk1, class Mk2> std::string run_owned(const std::string& sc, Mk1 make1, Mk2 make2, std::size_t n)
+{
+    using Ad = decltype(make1());
+    static_assert(std::is_same<Ad, decltype(make2())>::value, "one adaptor type");
+    auto vis = [n](Ad& a) { return ow_vis<EN>(a, n); };
+    if (sc == "cp") { Ad a = make1(); Ad b = a; std::string vb = vis(b); return "OW " + vb + " " + vis(a); }
+    if (sc == "cpd") { auto src = std::make_unique<Ad>(make1()); Ad b = *src; src.reset(); return "OW " + vis(b) + " -"; }
+    if (sc == "mv") { Ad a = make1(); Ad b = std::move(a); return "OW " + vis(b) + " -"; }
+    if (sc == "mvd") { auto src = std::make_unique<Ad>(make1()); Ad b = std::move(*src); src.reset(); return "OW " + vis(b) + " -"; }
+    if (sc == "asg") { Ad a = make1(); Ad b = a; a = make2(); std::string vb = vis(b); return "OW " + vb + " " + vis(a); }
+    if (sc == "masg") { auto src = std::make_unique<Ad>(make1()); Ad b = make2(); b = std::move(*src); src.reset(); return "OW " + vis(b) + " -"; }
+    if (sc == "ret")
+    {
+        auto f = [&](bool first) -> Ad { Ad x = make1(); Ad y = make2(); if (first) return x; return y; };
+        Ad r1 = f(true);
+        Ad r2 = f(false);
+        std::string v1 = vis(r1);
+        return "OW " + v1 + " " + vis(r2);
+    }
+    if (sc == "vec")
+    {
+        std::vector<Ad> v;
+        v.push_back(make1());
+        v.push_back(make2());
+        v.push_back(make1());
+        v.push_back(make2());
+        std::string v0 = vis(v[0]);
+        return "OW " + v0 + " " + vis(v[1]);
+    }
+    if (sc == "opt")
+    {
+        std::optional<Ad> o(make1());
+        std::optional<Ad> o2(std::move(o));
+        o.reset();
+        return "OW " + vis(*o2) + " -";
+    }
+    return "BADCASE";
+}
+template <bool EN, class MkC> std::string run_owned_container(const std::string& sc, MkC mk, const Elems& e1, const Elems& e2)
+{
+    auto ad = [&mk](const Elems& e) { if constexpr (EN) return nl::enumerate(mk(e)); else return nl::reverse(mk(e)); };
+    return run_owned<EN>(sc, [&] { return ad(e1); }, [&] { return ad(e2); }, e1.size());
+}
+// the initializer_list form needs its elements spelled out
+template <bool EN, std::size_t N> auto il_adaptor(const Elems& e)
+{
+    static_assert(N >= 1 && N <= 4, "1..4 elements");
+    if constexpr (N == 1) { if constexpr (EN) return nl::enumerate({ e[0] }); else return nl::reverse({ e[0] }); }
+    else if constexpr (N == 2) { if constexpr (EN) return nl::enumerate({ e[0], e[1] }); else return nl::reverse({ e[0], e[1] }); }
+    else if constexpr (N == 3) { if constexpr (EN) return nl::enumerate({ e[0], e[1], e[2] }); else return nl::reverse({ e[0], e[1], e[2] }); }
+    else { if constexpr (EN) return nl::enumerate({ e[0], e[1], e[2], e[3] }); else return nl::reverse({ e[0], e[1], e[2], e[3] }); }
+}
+template <bool EN> std::string run_owned_kind(const std::string& sc, const std::string& k, const Elems& e1, const Elems& e2)
+{
+    std::size_t n = e1.size();
+    if (k == "vec") return run_owned_container<EN>(sc, [](const Elems& e) { return std::vector<int>(e.begin(), e.end()); }, e1, e2);
+    if (k == "list") return run_owned_container<EN>(sc, [](const Elems& e) { return std::list<int>(e.begin(), e.end()); }, e1, e2);
+    if (k == "fv")
+        return run_owned_container<EN>(sc, [](const Elems& e) { nl::fixed_vector<int> v(e.size() + 2); for (int x : e) v.push_back(x); return v; }, e1, e2);
+    if (k == "arr")
+        return by_size(n, [&](auto N) {
+            constexpr std::size_t K = decltype(N)::value;
+            return run_owned_container<EN>(sc, [](const Elems& e) { std::array<int, K> a{}; for (std::size_t i = 0; i < K; i++) a[i] = e[i]; return a; }, e1, e2);
+        });
+    if (k == "il")
+        return by_size(n, [&](auto N) -> std::string {
+            constexpr std::size_t K = decltype(N)::value;
+            if constexpr (K == 0) return "BADCASE";
+            else return run_owned<EN>(sc, [&] { return il_adaptor<EN, K>(e1); }, [&] { return il_adaptor<EN, K>(e2); }, n);
+        });
+    return "BADCASE";
+}
+
 constexpr std::size_t MAXN = 6;
 
 template <std::size_t N> std::string run_arr(bool en, char mode, const Elems& e)
@@ -498,6 +588,14 @@ template <std::size_t N> struct CArrF { static std::string run(bool en, char mod
 
 static std::string run_case(const std::vector<std::string>& w)
 {
+    if (w.size() == 6 && w[0] == "ow" && (w[2] == "en" || w[2] == "rv"))
+    {
+        Elems e1, e2;
+        if (w[4] != ".") for (auto& t : vh::split_on(w[4], ',')) e1.push_back(std::atoi(t.c_str()));
+        if (w[5] != ".") for (auto& t : vh::split_on(w[5], ',')) e2.push_back(std::atoi(t.c_str()));
+        if (e1.size() != e2.size()) return "BADCASE";
+        return w[2] == "en" ? run_owned_kind<true>(w[1], w[3], e1, e2) : run_owned_kind<false>(w[1], w[3], e1, e2);
+    }
     if ((w.size() == 6 || w.size() == 7) && w[0] == "mc" && w[3].size() == 1)
     {
         std::vector<Elems> es;
